@@ -36,6 +36,8 @@ def run_call(table, spec):
 def want_bool(x):
     if x is True or x is False:
         return x
+    if isinstance(x, int) and x in (0, 1):       # a bit delivered as 0 / 1 is the same answer (True == 1)
+        return bool(x)
     raise BadType(type(x).__name__)
 
 
